@@ -1390,6 +1390,7 @@ impl VectorEngine {
             }
             collections.remove(name);
         }
+        self.invalidate_hnsw_cache(name);
 
         // Delete all embeddings in the collection
         let prefix = Self::collection_embedding_prefix(name);
@@ -2347,6 +2348,7 @@ impl VectorEngine {
             .collect();
 
         let count = keys.len();
+        self.invalidate_hnsw_cache("_default");
         for key in keys {
             self.store.delete(&key)?;
         }
@@ -2923,6 +2925,7 @@ impl VectorEngine {
     #[instrument(skip(self, keys), fields(count = keys.len()))]
     pub fn batch_delete_embeddings(&self, keys: Vec<String>) -> Result<usize> {
         let _guard = self.delete_lock.write();
+        self.invalidate_hnsw_cache("_default");
 
         let deleted = keys
             .into_iter()
@@ -3305,6 +3308,7 @@ impl VectorEngine {
         }
 
         self.store.put(storage_key, tensor)?;
+        self.invalidate_hnsw_cache("_default");
         Ok(())
     }
 
